@@ -197,6 +197,25 @@ func extractDate(date string, short bool) (first, second, third int, err error) 
 	return first, second, third, nil
 }
 
+// dateDigits returns the digits of a date text, i.e. the date without separators ("05.11.2009" -> "05112009")
+func dateDigits(date string) string {
+	return strings.Map(func(r rune) rune {
+		if r >= '0' && r <= '9' {
+			return r
+		}
+		return -1
+	}, date)
+}
+
+// dateYearPart returns the year digits (yy or yyyy) of a date text of any of the four formats, written with or without separators
+func dateYearPart(date string) string {
+	digits := dateDigits(date)
+	if len(digits) < 4 {
+		return ""
+	}
+	return digits[4:]
+}
+
 // datumOld deprecated calculates (ztDat = day of the year) and (masDat = total days since 1900)
 func datumOld(ztdatIn string, cent int) (ztDat, masDat int) {
 	// !                        BERECHNUNG DES DATUMS
